@@ -122,9 +122,25 @@ def gen_patchset(rng, ws, *, dup=None):
                 t.append(round(rng.uniform(0, 50), 2) + 0.25)
             else:
                 t.append(rng.choice(["lo", "hi", "nominal"]))
+        if tuples and rng.random() < 0.35:
+            # look-alikes of an existing tuple that are nevertheless different keys
+            base = list(rng.choice(tuples))
+            how = rng.choice(["permute", "near", "strnum", "negzero"])
+            if how == "permute" and len(base) > 1:
+                t = base[1:] + base[:1]
+            elif how == "near":
+                i = rng.randrange(len(base))
+                if isinstance(base[i], (int, float)):
+                    t = list(base)
+                    t[i] = float(base[i]) + 1e-7 if base[i] else 1e-9
+            elif how == "strnum":
+                i = rng.randrange(len(base))
+                t = list(base)
+                t[i] = str(base[i]) if not isinstance(base[i], str) else base[i] + "_"
         if not any(_eq_tuple(t, u) for u in tuples):
             tuples.append(t)
-    patches = [{"metadata": {"name": n, "values": t}, "patch": gen_patch_ops(rng, ws, rng.randint(1, 4))}
+    patches = [{"metadata": {"name": n, "values": t},
+                "patch": [] if rng.random() < 0.12 else gen_patch_ops(rng, ws, rng.randint(1, 4))}   # an empty list is a valid (no-op) patch
                for n, t in zip(names, tuples)]
     if rng.random() < 0.3:
         patches[0]["metadata"]["comment"] = "additional metadata is allowed"
@@ -185,7 +201,10 @@ def flip_value(v, variant=0):
     if isinstance(v, bool):
         return not v
     if isinstance(v, (int, float)):
-        return [v + 1, v * 2 + 0.5, -v - 1e-9][variant % 3]
+        if variant % 4 == 3:
+            import math
+            return math.nextafter(float(v), math.inf) if isinstance(v, float) else v + 1   # smallest representable change
+        return [v + 1, v * 2 + 0.5, -v - 1e-9][variant % 4]
     if isinstance(v, str):
         return [v + "x", v[:-1] if len(v) > 1 else v + "_", v.upper() if v.upper() != v else v.lower() + "q"][variant % 3]
     if v is None:
